@@ -64,6 +64,13 @@ def structures(tier, seed):
             out.append(base(axes={"X": poss}, arr={"X": pf}, to=pt, cboundary=r, cfill="S" if r == "fill" else None, extra=1))
         out.append(base(axes={"X": poss}, arr={"X": pf}, to=None, gperiodic=False, gfill="S"))
         out.append(base(axes={"X": poss}, arr={"X": pf}, to=pt, gboundary="extend", order=(1, 0), extra=1))
+    # per-call fill value against a different grid-level fill value (both symbolic), scalar and mapping spellings
+    for (pf, pt) in (("center", "left"), ("right", "center"), ("center", "outer"), ("inner", "center")):
+        poss = tuple(dict.fromkeys(("center", pf, pt)))
+        out.append(base(axes={"X": poss}, arr={"X": pf}, to=pt, cboundary="fill", cfill="S", gfill="S", gperiodic=False))
+        out.append(base(axes={"X": poss}, arr={"X": pf}, to=pt, gboundary="fill", cfill={"X": "S"}, gfill="S"))
+    out.append(base(axes={"X": ("center", "left"), "Y": ("center", "outer")}, arr={"X": "center", "Y": "center"}, axis=["X", "Y"], to={"X": "left", "Y": "outer"},
+                    gboundary="fill", cfill={"Y": "S"}, gfill={"X": "S", "Y": "S"}, gperiodic=False, part="sequential"))
     # invalid shifts are refused
     allp = ("center", "left", "right", "inner", "outer")
     for pf in allp:
